@@ -226,10 +226,10 @@ with expand_internal (fuel : nat) (st : state) (e env : val) (envmod : text) (d 
             match find_native name native_table with
             | Some info => if n_macro info
                            then let '(st3, r) := call_native f st2 name args env (d + 1) in (st3, r, true)
-                           else (st2, ROk (vec_to_list (first :: args)), ch2)
-            | None => (st2, ROk (vec_to_list (first :: args)), ch2)
+                           else (st2, ROk (vec_to_list (op :: args)), ch2)
+            | None => (st2, ROk (vec_to_list (op :: args)), ch2)
             end
-          | _ => (st2, ROk (vec_to_list (first :: args)), ch2)   (* the expanded operator [op] is discarded, as in the code *)
+          | _ => (st2, ROk (vec_to_list (op :: args)), ch2)   (* the expanded operator is kept *)
           end
         | (st2, inr r, ch2) => (st2, r, ch2)
         end
